@@ -606,7 +606,8 @@ class WireCF(object):
         return True
 
     def send_packet(self, pk, *a, **kw):
-        self.wire.append((self._sim.now, int(pk.port), int(pk.channel), bytes(pk.data)))
+        # last field: the protocol version of the firmware connected in this session (who will have to decode the packet)
+        self.wire.append((self._sim.now, int(pk.port), int(pk.channel), bytes(pk.data), self.platform._v))
         self.pending.append(pk)
         hold = self.radio[self.nsend % len(self.radio)] if self.radio else 0
         self.nsend += 1
@@ -639,6 +640,9 @@ def run_wire(case):
                 flights = []
                 helpers = {}
                 for fl in case['flights']:
+                    # a new session on the same Crazyflie object: the platform service reports the version of the firmware
+                    # connected now (the commanders read it through cf.platform.get_protocol_version() when they send)
+                    cf.platform._v = fl.get('version', case.get('version', 10))
                     w0, c0 = len(cf.wire), len(cf.calls)
                     entered, exc, marks = False, None, []
                     key = fl.get('reuse')
